@@ -1,7 +1,9 @@
 package verifworld
 
 import (
+	"encoding/json"
 	"fmt"
+	"net/http"
 	"sort"
 	"strings"
 
@@ -243,7 +245,27 @@ func runRolloutWithCut(scn *Scn, f Factory, edits []int, midSyncs int, ogStyle i
 		active := counted && plan.Sync == phase
 		count := 0
 		crashed := false
-		if active {
+		if active && strings.HasPrefix(plan.Kind, "hook-") {
+			// the webhook fails for one revision's call only: the one made for the latest parent state,
+			// or those made for superseded revisions
+			latestV, _ := getPath(env.Parent(), "spec.template.v")
+			prog := scn.Prog
+			env.W.Hooks.Handle(SyncURL, func(_ *http.Request, body []byte) HookResponse {
+				req, err := vs.DecodeJSON(body)
+				if err != nil {
+					return HookResponse{Code: 400}
+				}
+				p, _ := req["parent"].(map[string]any)
+				v, _ := getPath(p, "spec.template.v")
+				isLatest := vs.JSONEqual(v, latestV)
+				if (plan.Kind == "hook-latest") == isLatest {
+					return HookResponse{Code: 503, Body: []byte("unavailable")}
+				}
+				b, _ := json.Marshal(prog.EvalComposite(env.W.Sim, req))
+				return HookResponse{Code: 200, Body: b}
+			})
+		}
+		if active && !strings.HasPrefix(plan.Kind, "hook-") {
 			env.W.Sim.Before = func(r *vs.Request) *vs.Fault {
 				idx := count
 				count++
@@ -272,6 +294,24 @@ func runRolloutWithCut(scn *Scn, f Factory, edits []int, midSyncs int, ogStyle i
 		}
 		t := env.Sync()
 		env.W.Sim.Before = nil
+		if active && strings.HasPrefix(plan.Kind, "hook-") {
+			scn.Prog.Install(env.W, scn.Cfg.Kind)
+			failed := false
+			for _, h := range t.Hooks {
+				if h.Response.Code == 503 {
+					failed = true
+				}
+			}
+			if failed {
+				c.Class("hook-call-of-one-revision-failed")
+				// a sync in which any revision's hook failed must not act on the others' answers
+				for _, r := range t.Reqs {
+					if isChildWrite(env, r) || isRevWrite(r) {
+						return t, withTrace(vs.Violf("C09/acted-on-partial-hook-results", "the hook call for %s failed, yet the sync issued %s", map[string]string{"hook-latest": "the latest parent state", "hook-old": "a superseded revision"}[plan.Kind], r.String()), t)
+					}
+				}
+			}
+		}
 		if t.Panic != "" {
 			return t, vs.Violf("C09/panic", "panic: %s", t.Panic)
 		}
@@ -425,7 +465,7 @@ func PropC09(c *vs.Case, f Factory, o RolloutOpts) error {
 	if len(cuts) == 0 {
 		return nil
 	}
-	kinds := []string{"crash", "err500", "lost-response", "conflict"}
+	kinds := []string{"crash", "err500", "lost-response", "conflict", "hook-old", "hook-latest"}
 	ct := cuts[c.Int(len(cuts))]
 	kind := kinds[c.Int(len(kinds))]
 	cur = CutPlan{Sync: ct.s, Req: ct.r, Kind: kind}
